@@ -23,7 +23,7 @@ func main() {
 		"(weights nil/0/1/10/10/50/100; >12 pools reaches pdqsort). P: random catalogues of 0-18 instance types with 0-4 offerings (3 zones, 3 capacity types, " +
 		"10 dyadic prices with ties, 20% unavailable, custom-key offerings), requirement sets with zone/capacity-type/custom keys and minValues on instance-type " +
 		"and family, maxItems in {-1,0,1..len,len+1,600}, strict and BestEffort policy. T: ToNodeClaim on real NodeClaimTemplates with MaxInstanceTypes lowered. " +
-		"S: worlds of 2-5 NodePools (weights with ties, template labels/zones/capacity types/taints incl. PreferNoSchedule/limits/minValues; not-ready, static, deleting pools; " +
+		"S: worlds of 2-5 NodePools (weights with ties, template labels/zones/capacity types/taints incl. PreferNoSchedule/limits/minValues; every readiness state: Ready=True / False / Unknown (NodeClassReady or ValidationSucceeded undecided) / no conditions, plus static and deleting pools; " +
 		"1-4 instance types per pool incl. reserved offerings with capacity 0/1), one pod (feasible skeleton, at most two perturbations; half with preferred / several required " +
 		"node-affinity terms) or a batch of 2-5 pods, Solve at 1, 4 and 16 workers, then TruncateInstanceTypes + ToNodeClaim. " +
 		"P, T and S additionally re-run on the SAME *InstanceType objects after a first use (Allocatable/AllocatableOfferingsList/fits precompute) and an in-place change of " +
